@@ -79,9 +79,18 @@ Inductive answer :=
 | AnsIdent (name : bytes) (roles : list bytes)   (* authenticate / authorize returned an identity *)
 | AnsNo                        (* raised a ResponseError (tagged NO) *)
 | AnsNotFound                  (* raised MailboxNotFound (a ResponseError: tagged NO) *)
+| AnsCannot                    (* raised NotSupportedError, e.g. a name the maildir layout
+                                  rejects (tagged NO [CANNOT]) *)
 | AnsTimeout                   (* raised TimeoutError *)
 | AnsCrash                     (* raised anything else *)
 | AnsMismatch.                 (* script backend only: not the call the implementation made *)
+
+(* the backend call failed in a way the connection layer answers with NO *)
+Definition failure_answer (a : answer) : bool :=
+  match a with
+  | AnsNo | AnsNotFound | AnsCannot | AnsTimeout => true
+  | _ => false
+  end.
 
 Inductive cond := OK | NO | BAD | NOTAG.
 
@@ -202,6 +211,7 @@ Section Step.
   Definition on_raise (v : view) (b : B) (a : answer) : res :=
     match a with
     | AnsNo | AnsNotFound => raised v b NO WBackendNo
+    | AnsCannot => raised v b NO WCannot
     | AnsTimeout => raised v b NO WTimeout
     | _ => crash v b
     end.
@@ -502,7 +512,7 @@ Section Step.
     | Some (authc, secret, authz) =>
         match do_login_calls b authc secret authz with
         | (inl u, b') => (mk_conn (set_phase v0 (Authd u)) 0, b', mk_out OK WDone false 0)
-        | (inr AnsNo, b') | (inr AnsNotFound, b') =>
+        | (inr AnsNo, b') | (inr AnsNotFound, b') | (inr AnsCannot, b') =>
             (mk_conn (set_phase v0 Closed) 0, b', mk_out NOTAG WGreetBye true 0)
         | (inr _, b') => (mk_conn (set_phase v0 Closed) 0, b', mk_out NOTAG WCrash false 0)
         end
